@@ -188,6 +188,10 @@ def r_delimiters(mod, rep, R='R5.1'):
                     slash_tests |= set(f[1][2][1])
             if f[1][0] == 'in' and f[1][2][0] in ('tuple', 'list', 'set') and all(x[0] == 'const' and isinstance(x[1], str) and len(x[1]) == 1 for x in f[1][2][1]):
                 tested |= {x[1] for x in f[1][2][1]}
+                if len(f[1][2][1]) > 1 and {x[1] for x in f[1][2][1]} <= set('/\\|'):
+                    slash_tests |= {x[1] for x in f[1][2][1]}
+            if f[1][0] == 'in' and f[1][2][0] == 'dict' and all(k is not None and k[0] == 'const' and isinstance(k[1], str) and len(k[1]) == 1 for k, _ in f[1][2][1]):
+                tested |= {k[1] for k, _ in f[1][2][1]}       # membership in a table keyed by the characters
             if f[1][0] == 'eq':
                 for x in f[1][1:]:
                     if x[0] == 'const' and isinstance(x[1], str) and len(x[1]) == 1:
